@@ -221,6 +221,8 @@ VARIANTS += [
     V("c14-v4-lookup-cliff", "C14", K4, '("111111", 5.7),', '("111111", 0.3),', rule="C14.v4.cross"),
     V2("c12-rh-memo-vector-part", "C12", [(C4, "    def __init__(self, vector):\n        \"\"\"\n        Args:\n            vector (str): string specifying CVSS4 vector", "    _rh_seen = {}\n\n    def __init__(self, vector):\n        \"\"\"\n        Args:\n            vector (str): string specifying CVSS4 vector"), (C4, "        cvss_object = cls(base_vector)\n        if cvss_object.scores()[0] == score_value:\n            return cvss_object\n        else:", "        if base_vector in cls._rh_seen:\n            return cls._rh_seen[base_vector]\n        cvss_object = cls(base_vector)\n        if cvss_object.scores()[0] == score_value:\n            cls._rh_seen[base_vector] = cvss_object\n            return cvss_object\n        else:")], rule="C12.sem.history"),
     V2("c12-rh-memo-whole-string-N", "C12", [(C4, "    def __init__(self, vector):\n        \"\"\"\n        Args:\n            vector (str): string specifying CVSS4 vector", "    _rh_seen = {}\n\n    def __init__(self, vector):\n        \"\"\"\n        Args:\n            vector (str): string specifying CVSS4 vector"), (C4, "        cvss_object = cls(base_vector)\n        if cvss_object.scores()[0] == score_value:\n            return cvss_object\n        else:", "        if vector in cls._rh_seen:\n            return cls._rh_seen[vector]\n        cvss_object = cls(base_vector)\n        if cvss_object.scores()[0] == score_value:\n            cls._rh_seen[vector] = cvss_object\n            return cvss_object\n        else:")], "silent"),
+    V("c17-main-returns-true", "C17", CLI, '                print("CVSS vector in JSON:", json_output, sep="\\n")\n    except (KeyboardInterrupt, EOFError):\n        print()\n', '                print("CVSS vector in JSON:", json_output, sep="\\n")\n            return True\n    except (KeyboardInterrupt, EOFError):\n        print()\n', rule="C17.sem.exit.return"),
+    V("c17-main-returns-0-N", "C17", CLI, '                print("CVSS vector in JSON:", json_output, sep="\\n")\n    except (KeyboardInterrupt, EOFError):\n        print()\n', '                print("CVSS vector in JSON:", json_output, sep="\\n")\n            return 0\n    except (KeyboardInterrupt, EOFError):\n        print()\n        return None\n', "silent"),
     # ---------------------------------------------------------------- C16
     V("c16-prefix-30-as-31", "C16", INT, 'vector_string = "CVSS:3.0/" + "/".join(vector)', 'vector_string = "CVSS:3.1/" + "/".join(vector)', rule="C16.semantic"),
     V("c16-no-upper", "C16", INT, "input_value = string_input().strip().upper()", "input_value = string_input().strip()", rule="C16.semantic"),
